@@ -34,11 +34,16 @@ K = sym("k")          # non-negative region symbol: n = k + 2
 
 def check(model: Model, rep: Report, tier: str):
     rep.assume("numpy broadcasting: scalar + np.asarray(range(a, b)) is the element-wise shift of the range")
-    x1(model, rep)
-    x2(model, rep)
-    x3(model, rep)
-    x4(model, rep)
-    x5(model, rep)
+    with rep.isolated():
+        x1(model, rep)
+    with rep.isolated():
+        x2(model, rep)
+    with rep.isolated():
+        x3(model, rep)
+    with rep.isolated():
+        x4(model, rep)
+    with rep.isolated():
+        x5(model, rep)
 
 
 # ---------------------------------------------------------------------------------------------
